@@ -231,6 +231,7 @@ func runC08(env *lib.Env, rep *lib.Report) {
 	journeys := []string{"cache->flush(tiny cache)->restart", "crash-recovery-from-log", "multi-page table: updates of first/middle/last rows, flush, eviction, re-selection, restart",
 		"long SQL text: 40-row INSERTs of multi-byte strings shifted byte by byte across the scanner's refill boundaries"}
 	rep.Bounds["schemas"] = fmt.Sprintf("%d (all orders of 1..3 columns (thorough: 1..4) over int, bigint, varchar, boolean)", len(schemas))
+	rep.Bounds["column names"] = "k0,k1,..; and (schemas of >= 2 columns, journeys 0 and 1) ab, AB, Ab, aB - names that differ only in letter case"
 	rep.Bounds["supply paths"] = paths
 	rep.Bounds["operations"] = ops
 	rep.Bounds["journeys"] = journeys
@@ -259,6 +260,11 @@ func runC08(env *lib.Env, rep *lib.Report) {
 		}
 		// journey 0 runs with a 12-page cache and a timer flush every few statements, so stored
 		// pages are continually evicted and re-read; journey 1 never flushes (values live in the log only)
+		// column names: k0,k1,.. or names that differ from each other only in letter case
+		naming := 0
+		if len(types) > 1 {
+			naming = c.Choose(2, "column naming")
+		}
 		wo := worldOpt{}
 		if journey == 0 {
 			wo.Cache = 12
@@ -269,6 +275,9 @@ func runC08(env *lib.Env, rep *lib.Report) {
 		var ddl, names []string
 		for i, t := range types {
 			names = append(names, fmt.Sprintf("k%d", i))
+			if naming == 1 {
+				names[i] = []string{"ab", "AB", "Ab", "aB"}[i]
+			}
 			ddl = append(ddl, colDDL(mCol{names[i], t}))
 		}
 		if err := w.exec("CREATE TABLE v (" + strings.Join(ddl, ", ") + ")"); err != nil {
@@ -388,7 +397,7 @@ func runC08(env *lib.Env, rep *lib.Report) {
 				}
 			}
 		}
-		c.Observe(types, path, op, journey, nAccepted, nRefused)
+		c.Observe(types, path, op, journey, naming, nAccepted, nRefused)
 		c.Class(fmt.Sprintf("%v/%s/%s/%d", types, path, op, journey))
 		c.NonTrivial()
 		if !c08Compare(w, expect, "in the cache") {
